@@ -305,7 +305,7 @@ func finishC02(x *Exec) {
 	sort.Strings(ids)
 	for _, id := range ids {
 		ri := x.tr.Reqs[id]
-		if ri.Fee > 0 && ri.Settlement == "" {
+		if ri.Fee > 0 && ri.Settlement == "" && ri.ExpiresAt <= x.cur.Height {
 			attrs := map[string]string{"context_origin": x.ctxOrigin(ri.Ctx)}
 			if ci := x.tr.Ctxs[ri.Ctx]; ci != nil && ci.HugeFreq {
 				attrs["frequency"] = "ge_2^62"
